@@ -335,3 +335,89 @@ func referenceNamesResolve(r *core.Run) {
 		r.Fatal("R-FLOW/refscope: the reference-naming function of %s was not found", printRel)
 	}
 }
+
+// jsonDefaultIsProtocs (R-CONST/jsondefault): `json_name` is printed only when
+// it differs from the default, and the default that matters is the one the
+// .proto parser will compute when the option is missing: protoc's
+// lowerCamelCase (drop each underscore, upper-case a lower-case letter that
+// follows one, nothing else). A general-purpose case converter agrees with it
+// on snake_case words and differs elsewhere — strcase upper-cases a letter
+// after a digit (`sha256sum` → `sha256Sum`) and lower-cases a leading capital
+// — so a field whose explicit json_name equals that library's idea of the
+// default is printed without it and re-parses with protoc's.
+func jsonDefaultIsProtocs(r *core.Run) {
+	r.Rule("R-CONST/jsondefault", "in protoprint the value a field's JSONName() is compared with, to decide whether json_name is printed, is computed by a function of the package itself or of google.golang.org/protobuf whose call tree uses no third-party case conversion (strcase, x/text/cases): the default must be protoc's own")
+	pk := r.P.Pkg(printRel)
+	if pk == nil {
+		r.Fatal("anchor: package %s not found", printRel)
+		return
+	}
+	info := pk.TypesInfo
+	n := 0
+	foreignCase := func(name string) bool {
+		return strings.Contains(name, "iancoleman/strcase") || strings.Contains(name, "golang.org/x/text/cases") || strings.HasPrefix(name, "strings.Title") || strings.HasPrefix(name, "strings.ToTitle")
+	}
+	core.AllFuncDecls(pk, func(fd *ast.FuncDecl) {
+		if fd.Body == nil {
+			return
+		}
+		ast.Inspect(fd.Body, func(m ast.Node) bool {
+			b, ok := m.(*ast.BinaryExpr)
+			if !ok || (b.Op != token.NEQ && b.Op != token.EQL) {
+				return true
+			}
+			isJSON := func(e ast.Expr) bool {
+				e = core.Unparen(e)
+				if id, ok := e.(*ast.Ident); ok {
+					if def := soleDefinition(info, id); def != nil {
+						e = core.Unparen(def)
+					}
+				}
+				c, ok := e.(*ast.CallExpr)
+				if !ok {
+					return false
+				}
+				sel, ok := c.Fun.(*ast.SelectorExpr)
+				return ok && sel.Sel.Name == "JSONName" && strings.Contains(core.CalleeName(info, c), "protoreflect")
+			}
+			var other ast.Expr
+			switch {
+			case isJSON(b.X):
+				other = b.Y
+			case isJSON(b.Y):
+				other = b.X
+			default:
+				return true
+			}
+			c, ok := core.Unparen(other).(*ast.CallExpr)
+			if !ok {
+				return true // compared with "" or a plain value
+			}
+			n++
+			o := r.Add("R-CONST/jsondefault", printRel+"."+core.FuncName(fd)+" | default JSON name", c.Pos(), "default a field's JSON name is compared with")
+			name := core.CalleeName(info, c)
+			bad := ""
+			if foreignCase(name) {
+				bad = name
+			} else if fn := core.CalleeFunc(info, c); fn != nil && fn.Pkg() == pk.Types {
+				if cd := core.DeclOf(pk, fn.Origin()); cd != nil && cd.Body != nil {
+					core.InspectTree(pk, cd.Body, func(k ast.Node) bool {
+						if cc, ok := k.(*ast.CallExpr); ok && foreignCase(core.CalleeName(info, cc)) {
+							bad = core.CalleeName(info, cc)
+						}
+						return true
+					})
+				}
+			} else if fn != nil && fn.Pkg() != nil && !strings.HasPrefix(fn.Pkg().Path(), "google.golang.org/protobuf") {
+				bad = name
+			}
+			if bad == "" {
+				o.Auto("computed by %s, without a general-purpose case converter", name)
+			} else {
+				o.Fail("the default is computed with %s, which is not protoc's conversion (it upper-cases a letter after a digit and lower-cases a leading capital): a field whose json_name equals that form is printed without the option and re-parses with protoc's default instead", bad)
+			}
+			return true
+		})
+	})
+	r.Floor("R-CONST/jsondefault", 1, "printFieldStyle")
+}
